@@ -122,6 +122,10 @@ def _case(draw, tier):
         case["pre_first"] = chance(draw, 3, 4)
         k = draw(st.sampled_from([1, 2, 2]))
         case["sel"] = [["var", v] for v in list(draw(st.permutations([0, 1])))[:k]]
+        # combined by or_ only when the sub-query's variable is purely existential (neither selected nor mentioned by
+        # the other disjunct): what it ranges over on rows that only satisfy the other disjunct is not stated
+        case["conn"] = "or" if (case["pre"] is not None and 1 not in A.cond_vars(case["pre"])
+                                and case["sel"] == [["var", 0]] and chance(draw, 1, 2)) else "and"
         case["desc"] = "set_of"
     else:
         case["c0"] = _small_cond(draw, ctx, [0])
@@ -231,8 +235,9 @@ def check(case) -> Outcome:
             for x0, x1 in itertools.product(doms[0], doms[1]):
                 env = {0: x0, 1: x1}
                 n_sub += bool(A.eval_cond(case["sub_cond"], env))
-                if (case["pre"] is None or A.eval_cond(case["pre"], env)) and A.eval_cond(case["sub_cond"], env) \
-                        and A.eval_cond(cmp_ast, env):
+                mine_holds = A.eval_cond(case["sub_cond"], env) and A.eval_cond(cmp_ast, env)
+                pre_holds = case["pre"] is None or A.eval_cond(case["pre"], env)
+                if (pre_holds or mine_holds) if case.get("conn") == "or" else (pre_holds and mine_holds):
                     row = tuple(env[v] for v in sel)
                     if ident(row) not in seen:
                         seen.add(ident(row))
@@ -240,7 +245,8 @@ def check(case) -> Outcome:
             n_all = len(doms[0]) * len(doms[1])
             nontrivial = 0 < n_sub < n_all and 0 < len(expected)
             classes += ["sub_correlated" if 0 in A.cond_vars(case["sub_cond"]) else "sub_uncorrelated",
-                        "other_const" if case["other"][0] == "const" else "other_outer_attr", f"selected{len(sel)}"]
+                        "other_const" if case["other"][0] == "const" else "other_outer_attr", f"selected{len(sel)}",
+                        "combined_by_" + case.get("conn", "and")]
 
             def run(which):
                 V, conts = declare_vars(case, objs)
@@ -256,7 +262,12 @@ def check(case) -> Outcome:
                         mine = [f(st_, ot) if sub_side_l else f(ot, st_)]
                     else:
                         mine = [build_cond(case["sub_cond"], V), build_cond(cmp_ast, V)]
-                    conds = pre + mine if case["pre_first"] else mine + pre
+                    if case.get("conn") == "or":
+                        from entity_query_language import and_, or_
+                        m = mine[0] if len(mine) == 1 else and_(*mine)
+                        conds = [or_(pre[0], m) if case["pre_first"] else or_(m, pre[0])]
+                    else:
+                        conds = pre + mine if case["pre_first"] else mine + pre
                     q = an(set_of([V[v] for v in sel], *conds))
                 first = [tuple(r[V[v]] for v in sel) for r in q.evaluate()]
                 for n in (2, 3):
@@ -330,7 +341,8 @@ def render(case):
         cmp_ = f"{sub} {case['op']} {other}" if case["sub_side"] == "left" else f"{other} {case['op']} {sub}"
         pre = A.r_cond(case["pre"]) if case["pre"] is not None else None
         r["query"] = f"an(set_of({[A.r_term(t) for t in case['sel']]}, " + ", ".join(
-            [x for x in ([pre, cmp_] if case["pre_first"] else [cmp_, pre]) if x]) + "))"
+            [x for x in ([pre, cmp_] if case["pre_first"] else [cmp_, pre]) if x]) + "))" + \
+            (" [the two conditions combined by or_]" if case.get("conn") == "or" else "")
     else:
         r["query"] = f"an(set_of([a(v0, {A.r_cond(case['c0'])}), a(v1, {A.r_cond(case['c1'])})]))"
     return r
